@@ -114,10 +114,12 @@ def view_schema(package, byte_order):
         F("k1", 5, "cconst"), F("by", 6, "bytes3", offset=20), F("e", 7, "e8"), F("ec", 8, "ec"), F("e16", 9, "e16"),
         F("k2", 10, "e8", presence="constant", valueRef="e8.B"),
         F("s8", 11, "s8"), F("s32", 12, "s32"), F("s64", 13, "s64"), F("pt", 14, "point"), F("mx", 15, "mixed", offset=56),
-        F("k3", 16, "sconst"), F("opt_prim", 17, "int64", presence="optional")]))
+        # the last field of the level is a constant: the last NON-constant one must still end the block
+        F("opt_prim", 16, "int64", presence="optional"), F("k3", 17, "sconst")]))
     # m3: flat group + data
     m.append(G("flat", 3, fields=[F("x", 1, "uint16")],
-               groups=[G("g", 10, fields=[F("a", 1, "uint32"), F("b", 2, "e8"), F("c", 3, "str4", offset=6)])],
+               groups=[G("g", 10, fields=[F("a", 1, "uint32"), F("b", 2, "e8"), F("c", 3, "str4", offset=6), F("kz", 4, "cconst")],
+                         blockLength=13)],
                data=[D("d1", 20), D("d2", 21, "varStr8")]))
     # m4: nested groups with data, second sibling group with another dimension type, empty-entry group
     m.append(G("nested", 4, fields=[F("x", 1, "uint8"), F("y", 2, "uint32", offset=4)], blockLength=10,
